@@ -30,6 +30,10 @@ CHECKS["C18"] = {
   "note": TB + "acronym table regenerated from acronym.rs each run; pluralizer crate is a parameter of the variant-table theorem; "
           "Unicode case mapping outside ASCII not modelled (tokens are ASCII alphanumerics by construction of the tokenizer).",
 }
+FIX_COMMITS.append("d4f5d1b fix: replace does not follow symlinks")
+FIX_COMMITS.append("90f679f fix: honour .rgignore at the levels where it is documented")
+FIX_COMMITS.append("a628576 fix: never scan or rename renamify's own .renamify directory")
+FIX_COMMITS.append("9b4e272 fix: replace --quiet suppresses output, not the operation")
 FIX_COMMITS.append("07a4584 fix: an undone operation can be redone only once")
 FIX_COMMITS.append("c3d511b fix: refuse a plan whose id is already in the history before changing anything")
 FIX_COMMITS.append("7e5290d fix: plans with an empty replacement can be loaded again")
@@ -64,4 +68,36 @@ CHECKS["C17"] = {
           "attribute kinds that occur (any other attribute makes the translator fail loudly); non-UTF-8 paths are refused by the "
           "serialiser (guard clause, probed on the CLI); HashMap key order ignored; 'reloaded plan => same apply effect' is "
           "congruence plus the CLI tree comparison.",
+}
+CHECKS["C09"] = {
+  "text": "Theorems over the walker configuration, file tests, binary flag, glob rule and sniff tables REGENERATED from "
+          "lib.rs/scanner.rs/content_inspector on every run, for every level (0-3, higher, legacy flag), every path of any depth, "
+          "every ignore oracle and glob set: a `.git` or `.renamify` component, an honoured ignore file matching the entry or an "
+          "ancestor, an exclude glob (with build_globset's directory rule), a missing include match, a NUL byte in the first 1024 "
+          "bytes below level 3, a symlink or an ancestor symlink put the entry out of scope of all planners; the 16 ignore-file x "
+          "level cells equal the table regenerated from filtering.mdx/README.md; excluded matches and lines produce no hunk; "
+          "apply changes no path that the plan does not name (frame theorem over the apply model, any outcome). The model is "
+          "compared with the real configure_walker / scan_repository / create_simple_plan / build_globset / binary sniff on "
+          "generated trees on every run, and CLI plan+apply runs are judged by an independent re-implementation of the "
+          "documented table.",
+  "design_ref": "DESIGN.md section 4, C09",
+  "technique": "Lean 4 proof (decide over generated tables lifted by induction over paths; frame induction over apply) + translator + differential correspondence + documented-table oracle on CLI plan/apply",
+  "note": TB + "gitignore pattern matching (ignore crate) and glob matching (globset) are parameters of the theorems; the driver "
+          "instantiates them with a small gitignore matcher (no `!` patterns, no global gitignore) and a Lean transliteration of "
+          "globset for literals, ?, *, **; apply's frame theorem is about Model/Apply.lean, tied to apply.rs by C02's correspondence.",
+}
+CHECKS["C20"] = {
+  "text": "Lean model of clap's parser (Cli.accepts) over the grammar regenerated from args.rs/types.rs and of every argv builder "
+          "of renamify-mcp and renamify-vscode (regenerated from the TypeScript). Kernel-proved (decide +kernel): outside the "
+          "finite guard knownBad every command line is accepted with the intended meaning, and inside it none is, on the whole "
+          "enumerated space of the 14 small builders and on the core part (each field alone with every representative, hostile "
+          "values, knownBad combinations, maximal good combinations) of the 6 large ones; one witness theorem per finding. The "
+          "full enumeration (all subsets of optional fields x value profiles, ~4e4 argvs) is executed exhaustively on every run: "
+          "real Cli::try_parse_from vs the model, the real TypeScript under node vs the extracted builders, and an independent "
+          "acceptance+meaning oracle on the real parser's answer.",
+  "design_ref": "DESIGN.md section 4, C20",
+  "technique": "Lean 4 kernel-evaluated decision table + translators (clap derive, TS builders) + exhaustive differential vs real clap and node + random/mutated argv stream",
+  "note": TB + "clap semantics as written in RModel.Model.Cli (feature subset listed there; env vars unset); C20_guarded over the "
+          "whole space is executed, not proved (open statement: segment independence of Cli.run); representative values stand for "
+          "their class.",
 }
